@@ -33,18 +33,18 @@ def tablesDiag (pid : String) : String :=
         a.returnsBeforeExport.filterMap fun c => if c == "result == nil" || c == "!ok" then none else some s!"analyzer-{a.name}-returns-before-export-when-{c.replace " " "_"}")
     | "C11" =>
       GGV.Gen.packageVarWrites.filterMap (fun w =>
-        if (w.1 == "src/analyzer.cachedConfig" && w.2.1 == "src/analyzer.runConfig" && w.2.2 == "assign") ||
-           (w.1 == "src/analyzer.configOnce" && w.2.2 == "ptrcall:Do") ||
-           w.2.2 == "ptrcall:FindStringSubmatch" || w.2.2 == "ptrcall:Contains" then none
-        else some s!"package-level-{w.1}-written-in-{w.2.1}-by-{w.2.2}") ++
+        if w.2.2.1 == "assign-under-once" ||
+           (w.2.2.1 == "ptrcall" && w.2.2.2.1 == "sync.Once" && w.2.2.2.2 == "Do") ||
+           (w.2.2.1 == "ptrcall" && w.2.2.2.1 == "regexp.Regexp" && w.2.2.2.2 != "Longest") ||
+           (w.2.2.1 == "ptrcall" && w.2.2.2.1 == "ahocorasick.Matcher" && (w.2.2.2.2 == "Contains" || w.2.2.2.2 == "MatchThreadSafe")) then none
+        else some s!"package-level-{w.1}-written-in-{w.2.1}-by-{w.2.2.1}-{w.2.2.2.1}.{w.2.2.2.2}") ++
       GGV.Gen.packageVars.filterMap (fun v =>
         if v.2 == "*analysis.Analyzer" || v.2 == "*regexp.Regexp" || v.2 == "*ahocorasick.Matcher" ||
            v.2 == "map[string][]codes.Code" || v.2 == "map[string][]string" || v.2 == "*config.Config" || v.2 == "sync.Once" then none
         else some s!"package-level-variable-{v.1}-of-type-{v.2.replace " " "_"}") ++
       GGV.Gen.sharedReadMethods.filterMap (fun m =>
-        if m.2 == "" || ["src/util.AttachmentsMap.AddPkgFunctionAttachment", "src/util.AttachmentsMap.AddPkgTypeAttachment",
-            "src/util.AttachmentsMap.AddPkgTypeMethodAttachment", "src/util.TypeAssociationRegistry.Add", "src/util.TypesMap.Add"].contains m.1 then none
-        else some s!"lookup-{m.1}-shared-between-concurrent-checkers-writes-its-receiver-at-{m.2.replace " " ","}")
+        if m.2.1 == "" || m.2.2 == "src/indexing" then none
+        else some s!"lookup-{m.1}-called-from-{m.2.2.replace " " ","}-writes-its-receiver-at-{m.2.1.replace " " ","}")
     | "C19" => if GGV.Gen.maxLineLength < 4 then ["MaxLineLength-below-4"] else
                (if GGV.Gen.contextBefore != 2 || GGV.Gen.contextAfter != 1 then [s!"context-is-{GGV.Gen.contextBefore}-{GGV.Gen.contextAfter}-not-2-1"] else [])
     | "C18" => if GGV.Gen.defaultScanTests != false || GGV.Gen.defaultExcludePaths != ["testdata"] || GGV.Gen.defaultExcludeChecks != [] then ["defaults-differ-from-documented"] else []
